@@ -718,6 +718,12 @@ func (c *Context) Ln(d, x *Decimal) (Condition, error) {
 
 	nc := c.WithPrecision(p)
 	nc.Rounding = RoundHalfEven
+	// The intermediate values (corrections close to zero) must not be
+	// constrained by the caller's exponent range: with a MinExponent close to
+	// 0 they would be rounded as subnormals and the iteration would oscillate.
+	// The final result is rounded to c below.
+	nc.MaxExponent = MaxExponent
+	nc.MinExponent = MinExponent
 	ed := MakeErrDecimal(nc)
 
 	var tmp1, tmp2, tmp3, tmp4, z, resAdjust Decimal
